@@ -361,14 +361,17 @@ fn recipes(thorough: bool) -> Vec<Recipe> {
             if seen.insert(rec.desc()) {
                 out.push(rec.clone());
             }
-            if !thorough && fi >= 3 && fi != 7 {
+            // quick: depth 2 on every family except the two 4-leaf ones (their n-ary steps are depth-1 material)
+            if !thorough && leaves.len() >= 4 {
                 continue;
             }
             for (rec2, tys2) in gen::extend(&rec, &tys) {
                 if seen.insert(rec2.desc()) {
                     out.push(rec2.clone());
                 }
-                if thorough && fi < 2 && rec2.steps[1].operands().len() == 1 {
+                // depth 3: a unary step on top of a unary step on top of anything (getter chains such as
+                // Zip -> VectorGet -> TupleGet, conversion chains); quick: the two basic families
+                if (thorough || fi < 2) && rec2.steps[1].operands().len() == 1 {
                     for (rec3, _) in gen::extend(&rec2, &tys2) {
                         if rec3.steps[2].operands().len() == 1 && seen.insert(rec3.desc()) {
                             out.push(rec3);
